@@ -976,3 +976,32 @@ PROP_META["C18"]["level_note"] = ("Trusted: Kani/CBMC, the Read contract as mode
                                   "hash_stream_common) is checked.")
 for k in ("C08", "C19"):
     PROP_META[k]["engine"] = "kani-cbmc + mir2smt"
+add(Q("c17_pa_init_step_smt", "C17", harness="pa_init_step", engine="smt", cap=(60, 120), cost=50,
+      shape="inductive step",
+      bound="none on string length (<= 64): the loop body of init_from_partial, for ANY masks, any position i < 64 and any "
+            "symbol < 64, ORs exactly bit i into the mask of that symbol and leaves the other 63 masks untouched -- the "
+            "recurrence of the reference masks, so an array built from zeroed masks represents exactly its string",
+      enc=["BlockHashPositionArrayImplMutInternal::init_from_partial (MIR: loop body)"],
+      assumptions=["i < 64 and symbol < 64 (the documented contract; the checked entry point asserts both)",
+                   "the loop visits positions 0..len in order (core::slice::Iter / Enumerate are trusted)"]))
+PROP_META["C17"]["engine"] = "kani-cbmc + mir2smt"
+for cfg in ("unchecked", "unchecked-release", "unsafe", "unsafe-release"):
+    tq = ("quick", "thorough") if cfg == "unchecked-release" else ("thorough",)
+    c14("unchecked_block_size", M_BLOCK, "c14_unchecked_block_size", cfg, tq, (300, 600), 10,
+        "from_log_unchecked / log_from_valid_unchecked == checked, complete domain", ["block_size::*_unchecked"])
+    c14("unchecked_score_arithmetic", M_CMP, "c14_unchecked_score_arithmetic", cfg, tq, (300, 600), 20,
+        "raw_score / score_cap unchecked == checked on their contracts (complete domain)",
+        ["raw_score_by_edit_distance_unchecked", "score_cap_on_block_hash_comparison_unchecked"])
+    c14("unchecked_position_array_l8", M_PA, "c14_unchecked_position_array_l8", cfg, ("thorough",), (900, 2400), 600,
+        "BlockHashPositionArrayImplUnchecked == BlockHashPositionArrayImpl, strings <= 8",
+        ["is_equiv_unchecked", "has_common_substring_unchecked", "edit_distance_unchecked", "score_strings_raw_unchecked",
+         "score_strings_unchecked"], unwindset=pa_rules(n_ed=9, n_cs=9, n_init=9), mem=14)
+    for pr in ("3_3", "3_4", "30_29"):
+        c14("unchecked_target_" + pr, M_CMP, "c14_unchecked_target_" + pr, cfg, ("thorough",), (900, 3000), 900,
+            "compare_*_unchecked / is_comparison_candidate_*_unchecked == checked, block hashes <= 7, sizes " + pr,
+            ["FuzzyHashCompareTarget::*_unchecked", "FuzzyHashData::compare_unequal_unchecked"], unwindset=C02_RULES, mem=14)
+    for nm in ("c14_unchecked_constructors_short_norm_m8", "c14_unchecked_constructors_long_raw_m8"):
+        c14(nm[4:], M_HASH, nm, cfg, ("thorough",), (900, 2400), 400,
+            "unchecked constructors == checked ones on valid arguments, block hashes <= 8",
+            ["new_from_internals_raw_unchecked", "init_from_internals_raw_unchecked", "new_from_internals_near_raw_unchecked",
+             "new_from_internals_unchecked"])
